@@ -38,6 +38,8 @@ pub struct Driver {
     pub fatal: bool,
     /// length of the history log when a dump last showed stale ancestors_*/descendants_*
     pub aggs_bad_at: Option<usize>,
+    /// step choice of the histories recorded in the corpus before the straddling step existed
+    pub legacy_steps: bool,
     reported: HashSet<String>,
 }
 
@@ -48,7 +50,7 @@ fn ids_json(w: &World, ids: &[ProposalShortId]) -> Value {
 impl Driver {
     pub fn new(cfg: WorldCfg, mode_c12: bool, hist_id: String) -> Driver {
         let w = World::new(cfg);
-        Driver { w, obs: Obs::default(), mode_c12, last_dump: None, f3_seen: false, f10_seen: false, hist_id, fatal: false, aggs_bad_at: None, reported: HashSet::new() }
+        Driver { w, obs: Obs::default(), mode_c12, last_dump: None, f3_seen: false, f10_seen: false, hist_id, fatal: false, aggs_bad_at: None, legacy_steps: false, reported: HashSet::new() }
     }
 
     fn violation(&mut self, what: &str, detail: Value, signature: Option<&str>) {
@@ -188,8 +190,12 @@ impl Driver {
             }
             Err(e) => {
                 if fresh {
-                    let sig = self.known_c11_signature();
-                    self.violation("C13 the node rejected its own block template", json!({"template": desc, "error": e}), sig);
+                    // a committed transaction outside the proposal window of the template's parent is not a consequence
+                    // of stale pool aggregates (C11's F3 / F10 make packages too large or mis-ordered): no known signature
+                    let view = snap_before.proposals();
+                    let outside: Vec<Value> = block.transactions().iter().skip(1).filter(|tx| !view.contains_proposed(&tx.proposal_short_id())).map(|tx| self.w.tx_no(&tx.hash())).collect();
+                    let sig = if outside.is_empty() { self.known_c11_signature() } else { None };
+                    self.violation("C13 the node rejected its own block template", json!({"template": desc, "error": e, "committed_outside_the_proposal_window": outside}), sig);
                 } else {
                     self.w.stat("stale_template_rejected");
                 }
@@ -562,6 +568,226 @@ impl Driver {
         self.last_dump = Some(dump);
     }
 
+
+    // ------------------------------------------------- straddling submission
+    /// an outside block on the node's own tip with the given proposals (no commits, no uncles)
+    fn outside_on_tip(&mut self, rng: &mut Rng, proposals: Vec<ProposalShortId>, what: &str) -> Option<BlockView> {
+        let delta = *rng.pick(&[1u64, 7, 300, 2_000]);
+        let plan = BlockPlan { proposals, txs: vec![], uncles: vec![], ts_delta: delta, nonce: self.w.blocks.len() as u128 + 1 };
+        let b = try_build_block(&self.w.node, &plan);
+        let Some(b) = b else { self.w.stat("straddle_outside_block_not_built"); return None; };
+        let id = self.w.register_block(&b);
+        self.w.log(json!({"block": {"id": id, "what": what, "height": b.number(), "commits": [],
+            "proposals": b.union_proposal_ids_iter().filter_map(|i| self.w.by_short.get(&i).cloned()).collect::<Vec<_>>(), "uncles": 0}}));
+        Some(b)
+    }
+
+    /// up to `n` ids of pooled transactions that are not proposed yet (what another miner would propose)
+    fn other_proposals(&mut self, rng: &mut Rng, n: u64) -> Vec<ProposalShortId> {
+        let (dump, _) = self.w.node.pool().verif_dump();
+        let mut ids: Vec<ProposalShortId> = dump.entries.iter().filter(|e| e.status == Status::Pending).map(|e| e.id.clone()).collect();
+        ids.sort_by_key(|i| short_hex(i));
+        let mut out = vec![];
+        for _ in 0..n {
+            if ids.is_empty() { break; }
+            let k = rng.below(ids.len() as u64) as usize;
+            out.push(ids.swap_remove(k));
+        }
+        out
+    }
+
+    /// mines the node's own templates until the tip is at `target`
+    fn advance_to(&mut self, rng: &mut Rng, target: u64) -> bool {
+        let mut tries = 0;
+        while self.w.node.tip().number() < target && tries < 3 * (target + 1) && !self.fatal {
+            tries += 1;
+            self.w.settle_template();
+            if let Some(Some(ch)) = self.template_moment("straddle-advance", true) {
+                self.after_change(&ch, "mined");
+            }
+            self.w.tick(rng.range(1, 2_000));
+        }
+        self.w.node.tip().number() == target && !self.fatal
+    }
+
+    /// C12 stage clause under the 'schedules' quantifier / C13 'its transactions are proposed within the window':
+    /// the tip changes between pre_check and submit_entry of a transaction T, and the change alters T's OWN
+    /// proposal status.  T is never handed to the pool before; its id is committed on chain as a proposal by an
+    /// outside block.
+    ///  0: T's proposal at the END of its window (tip = proposal height + w_far - 1), the node mines its own template in between
+    ///  1: the same, an outside block arrives in between
+    ///  2: T proposed only on the branch that a heavier competing branch replaces in between
+    ///  3: T unknown to the chain at pre_check, proposed by the outside block that arrives in between
+    pub fn step_straddle(&mut self, rng: &mut Rng, variant: u64) {
+        const NAMES: [&str; 4] = ["window-end-own-template", "window-end-outside-block", "reorg-abandons-proposal", "newly-proposed"];
+        let name = NAMES[variant as usize % 4];
+        let (_w_close, w_far) = self.w.cfg.chain.window;
+        let limit = self.w.consensus.max_block_proposals_limit();
+        // T spends a chain cell that no pooled transaction touches
+        let (dump, _) = self.w.node.pool().verif_dump();
+        self.w.allow_recent = false;
+        let (free, _, pool_outs) = self.w.cell_classes(&dump);
+        let chain_free: Vec<(OutPoint, u64)> = free.into_iter().filter(|c| !pool_outs.contains(c)).collect();
+        if chain_free.is_empty() {
+            self.w.stat("straddle_no_free_cell");
+            return;
+        }
+        let cell = rng.pick(&chain_free).clone();
+        let fee = rng.range(1_000, 20_000);
+        let Some(t) = self.w.make_tx(&[cell.clone()], rng.range(1, 2) as usize, fee, 8, &[], &[]) else { return; };
+        let ti = self.w.register_tx(&t, fee, true);
+        let id = t.proposal_short_id();
+        self.w.stat(&format!("straddle_{name}_started"));
+        self.w.log(json!({"straddle_tx": {"tx": ti, "variant": name, "input": [self.w.tx_no(&cell.0.tx_hash()), Unpack::<u32>::unpack(&cell.0.index())]}}));
+        // ---- the chain history before the submission, and the blocks that arrive in between
+        let mut arriving: Vec<BlockView> = vec![];
+        let mut own_template = false;
+        match variant % 4 {
+            0 | 1 => {
+                let mut props = vec![id.clone()];
+                props.extend(self.other_proposals(rng, std::cmp::min(2, limit.saturating_sub(1))));
+                let Some(b) = self.outside_on_tip(rng, props, "straddle-proposes") else { return; };
+                let n = b.number();
+                match self.w.deliver(&b) {
+                    Ok(Some(ch)) => self.after_change(&ch, "outside-extension"),
+                    _ => { self.w.stat("straddle_proposing_block_not_attached"); return; }
+                }
+                // T may be committed in n + w_close ..= n + w_far: at tip n + w_far - 1 the next block is the last one
+                let target = if rng.chance(4, 5) { n + w_far - 1 } else { rng.range(n, n + w_far - 1) };
+                if !self.advance_to(rng, target) { self.w.stat("straddle_advance_failed"); return; }
+                if variant % 4 == 0 {
+                    own_template = true;
+                    self.w.settle_template();
+                } else {
+                    let props = self.other_proposals(rng, std::cmp::min(2, limit));
+                    let Some(b) = self.outside_on_tip(rng, props, "straddle-arrives") else { return; };
+                    arriving.push(b);
+                }
+            }
+            2 => {
+                let fork = self.w.node.tip().number();
+                let Some(b) = self.outside_on_tip(rng, vec![id.clone()], "straddle-proposes") else { return; };
+                let n = b.number();
+                match self.w.deliver(&b) {
+                    Ok(Some(ch)) => self.after_change(&ch, "outside-extension"),
+                    _ => { self.w.stat("straddle_proposing_block_not_attached"); return; }
+                }
+                let j = rng.range(0, std::cmp::min(w_far - 1, 3));
+                if !self.advance_to(rng, n + j) { self.w.stat("straddle_advance_failed"); return; }
+                // the competing branch: from the fork point, one block longer, without T's proposal
+                // (now and then its last block proposes T again)
+                let main = self.w.main_chain();
+                let builder = Node::temp(&self.w.consensus);
+                let mut ok = main.iter().take(fork as usize).all(|b| builder.process(b).is_ok());
+                let len = j + 2;
+                for k in 0..len {
+                    if !ok { break; }
+                    let mut props = self.other_proposals(rng, std::cmp::min(2, limit.saturating_sub(1)));
+                    if k + 1 == len && rng.chance(1, 4) { props.push(id.clone()); }
+                    let plan = BlockPlan { proposals: props, txs: vec![], uncles: vec![], ts_delta: *rng.pick(&[1u64, 7, 300, 2_000]), nonce: self.w.blocks.len() as u128 + 1 };
+                    match try_build_block(&builder, &plan) {
+                        Some(b) if builder.process(&b).is_ok() => {
+                            let bid = self.w.register_block(&b);
+                            self.w.log(json!({"block": {"id": bid, "what": "straddle-competing-branch", "from_height": fork, "height": b.number(), "k": k, "commits": [],
+                                "proposals": b.union_proposal_ids_iter().filter_map(|i| self.w.by_short.get(&i).cloned()).collect::<Vec<_>>(), "uncles": 0}}));
+                            arriving.push(b);
+                        }
+                        _ => ok = false,
+                    }
+                }
+                builder.stop();
+                if !ok { self.w.stat("straddle_branch_not_built"); return; }
+            }
+            _ => {
+                let mut props = vec![id.clone()];
+                props.extend(self.other_proposals(rng, std::cmp::min(2, limit.saturating_sub(1))));
+                let Some(b) = self.outside_on_tip(rng, props, "straddle-arrives") else { return; };
+                arriving.push(b);
+            }
+        }
+        // ---- pre_check under the old tip / the tip changes and the pool processes the change / submit_entry
+        self.refresh_dump();
+        let snap0 = self.w.node.shared.snapshot();
+        let stage_in = |snap: &ckb_snapshot::Snapshot| {
+            let v = snap.proposals();
+            if v.contains_proposed(&id) { "proposed" } else if v.contains_gap(&id) { "gap" } else { "pending" }
+        };
+        let pre = stage_in(&snap0);
+        let pool = self.w.node.pool().clone();
+        let mut between_ran = false;
+        let mut between_err: Option<String> = None;
+        let r = {
+            let between = || {
+                between_ran = true;
+                if own_template {
+                    let _ = self.template_moment("straddle-between", true);
+                } else {
+                    for b in &arriving {
+                        if let Err(e) = self.w.deliver(b) {
+                            between_err = Some(e);
+                            break;
+                        }
+                    }
+                }
+                // exactly the wait of after_change: the pool's snapshot is the chain's tip
+                let _ = self.w.sync_pool();
+            };
+            pool.verif_process_tx_two_step(t.clone(), between)
+        };
+        self.w.txs[ti].secret = false;
+        let snap1 = self.w.node.shared.snapshot();
+        let post = stage_in(&snap1);
+        let moved = snap1.tip_hash() != snap0.tip_hash();
+        let class = match &r {
+            Ok(()) => "accepted".to_string(),
+            Err(rej) => format!("rejected-{}", reject_class(rej)),
+        };
+        self.w.stat(&format!("straddle_{name}_{class}"));
+        if between_ran && moved {
+            self.w.stat(&format!("straddle_precheck_{pre}_submit_{post}"));
+        } else {
+            self.w.stat(if between_ran { "straddle_tip_did_not_move" } else { "straddle_precheck_rejected" });
+        }
+        if let Some(e) = &between_err {
+            self.violation("the node rejected an outside block built on its own snapshot", json!({"error": e}), None);
+        }
+        self.w.log(json!({"straddle_submit": {"tx": ti, "variant": name, "stage_at_precheck_tip": pre, "stage_at_submit_tip": post,
+            "tip_at_precheck": snap0.tip_number(), "tip_at_submit": snap1.tip_number(), "tip_moved": moved, "result": class}}));
+        // ---- C12: the usual observation after a processed change, now with T's submission behind it
+        if moved {
+            let ch = change_between(&snap0, &snap1);
+            self.w.straddle_tx = Some(id.clone());
+            self.after_change(&ch, &format!("straddle-{name}"));
+            self.w.straddle_tx = None;
+        } else {
+            self.refresh_dump();
+        }
+        // ---- C13: the template built from this pool, sealed, must pass the node's own verification
+        if !self.fatal {
+            self.w.settle_template();
+            if let Some(Some(ch)) = self.template_moment("after-straddle", true) {
+                self.after_change(&ch, "mined");
+            }
+        }
+    }
+
+    /// a short fixed script around the four straddling variants (run at the start of every check, like a corpus)
+    pub fn run_directed(&mut self, rng: &mut Rng, first: u64) {
+        self.refresh_dump();
+        for _ in 0..2 {
+            self.step_mine(rng, "warmup");
+        }
+        for k in 0..4 {
+            if self.fatal { break; }
+            self.step_submit(rng);
+            self.step_mine(rng, "steady");
+            self.step_straddle(rng, first + k);
+            self.w.tick(rng.range(1, 3_000));
+            self.step_mine(rng, "steady");
+            self.step_mine(rng, "steady");
+        }
+    }
+
     pub fn run(&mut self, rng: &mut Rng, steps: u64) {
         self.refresh_dump();
         // warm-up: a few mined blocks so that the proposal window and the reward finalisation are past genesis
@@ -573,7 +799,11 @@ impl Driver {
                 break;
             }
             let tip = self.w.node.tip().number();
-            match rng.below(24) {
+            match rng.below(if self.legacy_steps { 24 } else { 25 }) {
+                24 => {
+                    let v = rng.below(4);
+                    self.step_straddle(rng, v)
+                }
                 0..=8 => self.step_submit(rng),
                 9..=13 => self.step_mine(rng, "steady"),
                 14..=15 => {
